@@ -552,9 +552,14 @@ class AsyncParmapper(AsyncIterable):
         with executor:
 
             def result(fut):
-                if fut.exception() is not None:
+                exc = fut.exception()
+                if isinstance(exc, StopIteration):
+                    # An `asyncio.Future` refuses to carry `StopIteration` (the element would never
+                    # be resolved); do what Python does when it escapes from a coroutine.
+                    raise RuntimeError('worker raised StopIteration') from exc
+                if exc is not None:
                     # `Future.result` tests the exception by its truth value.
-                    raise fut.exception()
+                    raise exc
                 return fut.result()
 
             async def func(x, *, executor, loop, **kwargs):
